@@ -34,6 +34,9 @@ def enumerate_cases(tier):
         for sched in ({'mode': 'rr'}, {'mode': 'serial'}, {'mode': 'rr', 'chunks': [1]},
                       {'mode': 'rand', 'seed': m * 10 + t, 'chunks': [1, 2, 15, 16, 17, 3]}):
             yield dict(m=m, t=t, seed=m * 100 + t, sched=sched)
+        for ct in range(0, (m + 1) // 2):
+            if ct != t and 2 * ct < m:
+                yield dict(m=m, t=t, seed=m * 100 + t, sched={'mode': 'rr'}, cli_t=ct)
 
 
 @st.composite
@@ -42,7 +45,7 @@ def _case(draw, tier):
     sched = draw(progs.schedule(m))
     if sched.get('mode') != 'fast':
         sched['chunks'] = draw(st.lists(st.sampled_from([0, 1, 2, 3, 15, 16, 17, 18, 31, 32, 33, 34]), max_size=6))
-    return dict(m=m, t=t, seed=draw(st.integers(0, 2**30)), sched=sched)
+    return dict(m=m, t=t, seed=draw(st.integers(0, 2**30)), sched=sched, cli_t=draw(progs.cli_threshold(m, t)))
 
 
 def strategy(tier):
@@ -59,7 +62,7 @@ async def _prog(mpc, pid):
 def run_case(case):
     m, t = case['m'], case['t']
     labels = [f'm={m}', f't={t}', 'sched=' + case['sched'].get('mode', 'rr')]
-    sim = simmod.Sim(m, t, prss=True, seed=case['seed'], schedule=case['sched'])
+    sim = simmod.Sim(m, t, prss=True, seed=case['seed'], schedule=case['sched'], cli_threshold=case.get('cli_t'))
     try:
         res = sim.run_programs(_prog)
         keys = [dict(rt._prss_keys) for rt in sim.runtimes]
